@@ -881,6 +881,18 @@ class FnTranslator:
     e_CXXStaticCastExpr = cast_common
     e_CXXFunctionalCastExpr = cast_common
 
+    def e_BuiltinBitCastExpr(self, n):
+        t = self.ty(n)
+        a = kids(n)[-1]
+        st = self.ty(a)
+        if t.is_struct() or st.is_struct() or SIZEOF.get(t.base) != SIZEOF.get(st.base):
+            self.fail(n, 'bit_cast between %s and %s' % (st.base, t.base))
+        h = 'vf_bitcast_%s_%s' % (st.base.replace(' ', '_'), t.base.replace(' ', '_'))
+        if h not in self.ex.helpers:
+            self.ex.helpers[h] = 'static inline %s %s(%s x) { union { %s a; %s b; } u; u.a = x; return u.b; }' % (
+                t.base, h, st.base, st.base, t.base)
+        return '%s(%s)' % (h, self.expr(a))
+
     def e_ImplicitValueInitExpr(self, n):
         t = self.ty(n)
         if t.is_struct():
